@@ -32,6 +32,7 @@ type Ctx struct {
 	sts     []string          // state table (Coq terms)
 	stIdx   map[string]int
 	Assets  []channel.Asset
+	restores int
 }
 
 func NewCtx(g *cv.Gen, n, me int, kind string) *Ctx {
@@ -136,19 +137,34 @@ func (c *Ctx) regOwn(sig wallet.Sig, signer int, s *channel.State) {
 
 // ---------- state generation ----------
 
-func (c *Ctx) alloc(total int64) channel.Allocation {
+// total picks the per-asset total of a channel: mostly small, sometimes around the 64-bit word
+// boundary or far beyond it (carries in big-integer arithmetic).
+func (c *Ctx) total(base int64) *big.Int {
+	switch c.G.R.Intn(8) {
+	case 0:
+		return new(big.Int).Add(new(big.Int).Lsh(big.NewInt(1), 63), big.NewInt(base))
+	case 1:
+		return new(big.Int).Add(new(big.Int).Lsh(big.NewInt(1), 64), big.NewInt(base))
+	case 2:
+		return new(big.Int).Add(new(big.Int).Lsh(big.NewInt(1), 100), big.NewInt(base))
+	default:
+		return big.NewInt(base)
+	}
+}
+
+func (c *Ctx) alloc(base int64) channel.Allocation {
 	a := channel.Allocation{Assets: c.Assets, Backends: make([]wallet.BackendID, len(c.Assets))}
 	a.Balances = make(channel.Balances, len(c.Assets))
 	for i := range a.Balances {
 		a.Balances[i] = make([]channel.Bal, c.N)
-		rem := total
+		rem := c.total(base)
 		for j := 0; j < c.N; j++ {
-			v := rem
+			v := new(big.Int).Set(rem)
 			if j < c.N-1 {
-				v = c.G.R.Int63n(rem + 1)
+				v = new(big.Int).Rand(c.G.R, new(big.Int).Add(rem, big.NewInt(1)))
 			}
-			rem -= v
-			a.Balances[i][j] = big.NewInt(v)
+			rem = new(big.Int).Sub(rem, v)
+			a.Balances[i][j] = v
 		}
 	}
 	return a
@@ -183,7 +199,7 @@ func (c *Ctx) Succ(cur *channel.State, actor int, final bool) *channel.State {
 	s.Data = c.data()
 	for i := range s.Balances {
 		if actor < len(s.Balances[i]) && s.Balances[i][actor].Sign() > 0 {
-			amt := big.NewInt(1 + c.G.R.Int63n(s.Balances[i][actor].Int64()))
+			amt := new(big.Int).Add(big.NewInt(1), new(big.Int).Rand(c.G.R, s.Balances[i][actor]))
 			np := len(s.Balances[i])
 			if np < 2 || actor >= np {
 				continue
@@ -250,6 +266,27 @@ func (c *Ctx) Candidates(cur *channel.State) []candidate {
 		j := (actor + 1) % c.N
 		s.Balances[0][j] = new(big.Int).Sub(s.Balances[0][j], big.NewInt(1))
 		add("sum-1", s, actor)
+	}
+	{
+		// totals that differ by exactly one machine word / two machine words
+		s := ok()
+		j := (actor + 1) % c.N
+		if j < len(s.Balances[0]) {
+			s.Balances[0][j] = new(big.Int).Add(s.Balances[0][j], new(big.Int).Lsh(big.NewInt(1), 64))
+		}
+		add("sum+2^64", s, actor)
+		t := ok()
+		for j := range t.Balances[0] {
+			if j < 2 {
+				t.Balances[0][j] = new(big.Int).Add(t.Balances[0][j], new(big.Int).Lsh(big.NewInt(1), 63))
+			}
+		}
+		add("sum+2^63+2^63", t, actor)
+		u := ok()
+		if j < len(u.Balances[0]) {
+			u.Balances[0][j] = new(big.Int).Add(u.Balances[0][j], new(big.Int).Lsh(big.NewInt(1), 128))
+		}
+		add("sum+2^128", u, actor)
 	}
 	{
 		s := ok()
@@ -853,7 +890,14 @@ func (r *runner) execCase(c *Ctx, m *channel.StateMachine, init Snap, ops []Op, 
 
 // restore builds a real machine in the given abstract state.
 func (c *Ctx) restore(ph channel.Phase, staging, current channel.Transaction) *channel.StateMachine {
-	src := &source{idx: channel.Index(c.Me), params: c.Params, staging: staging, current: current, phase: ph}
+	// RestoreStateMachine derives the own index from the account's position in the participant list;
+	// the index the source reports is not authoritative: every other restore reports a wrong one.
+	idx := c.Me
+	c.restores++
+	if c.restores%2 == 0 {
+		idx = (c.Me + 1) % c.N
+	}
+	src := &source{idx: channel.Index(idx), params: c.Params, staging: staging, current: current, phase: ph}
 	m, err := channel.RestoreStateMachine(c.AccMap(c.Me), src)
 	if err != nil {
 		panic(err)
